@@ -41,7 +41,7 @@ def cases(ctx):
     for _ in range(ctx.n(100, 3000)):
         tag = rng.choice(['TapLeaf', 'TapBranch', 'TapTweak', 'TapSighash', 'BIP0340/aux', 'BIP0340/nonce', 'BIP0340/challenge', 'x', 'Tag%d' % rng.randrange(100)])
         yield Case(f'tagged {tag} {hx(G.rbytes(rng, rng.randrange(0, 200)))}', 's', nontrivial=True, tag='tagged')
-    secrets = [1, 2, N - 1, N - 2, 2 ** 255, 3] + [rng.randrange(1, N) for _ in range(ctx.n(20, 800))]
+    secrets = [1, 2, N - 1, N - 2, 2 ** 255, 3] + [rng.randrange(1, N) for _ in range(ctx.n(20, 400))]
     sigs = []
     for d in secrets:
         msg = G.rbytes(rng, 32); aux = rng.choice([bytes(32), G.rbytes(rng, 32)])
